@@ -53,7 +53,7 @@ def main(ck: Check):
     n_cases = 40 if ck.tier == "quick" else 600
     lean = ck.locked()
     lean.__enter__()
-    ok_gen = ck.regenerate(["core"])
+    ok_gen = ck.regenerate(["core", "effects"])
     proved = ok_gen and ck.prove("Simaple.Props.C11")
     if ck.tier == "thorough" and proved:
         ck.leanchecker(["Simaple.Props.C11"])
@@ -115,6 +115,7 @@ def main(ck: Check):
             if len(raised_in_correspondence) < 3:
                 raised_in_correspondence.append(f"{type(e).__name__}: {str(e)[:300]}")
     res = ck.driver(reqs)
+    effect_rows = ck.effect_entries(11, "Simaple.Props.C11.operators_wellFormed")
     lean.__exit__(None, None, None)
     disagreements = 0
     seen_ops = {}
@@ -278,6 +279,7 @@ def main(ck: Check):
                 "block's non-zero field set and values differ and it has a non-zero field",
         "samples": samples,
         "model_vs_code_requests": len(reqs),
+        "operators_checked_by_the_effect_model": effect_rows,
         "model_vs_code_disagreements": disagreements,
         "per_operation": seen_ops,
         "laws_checked_on_implementation": laws_checked,
